@@ -685,12 +685,13 @@ structure DecInv (S : Bytes) (s : Dec) : Prop where
   run : s.stop = .running →
     (drainAll S).pk = s.out ++ (drainAll (s.buf ++ s.pending.flatten)).pk ∧
     (drainAll S).ill = (drainAll (s.buf ++ s.pending.flatten)).ill
-  fin : s.stop ≠ .running → (drainAll S).pk = s.out
+  fin : s.stop ≠ .running → s.stop ≠ .werr → (drainAll S).pk = s.out
   ill : s.stop = .illegal → (drainAll S).ill = true
   noill : s.stop = .clean ∨ s.stop = .trunc → (drainAll S).ill = false
+  werr : s.stop = .werr → s.out <+: (drainAll S).pk
 
 theorem decInv_init (chunks : List Bytes) : DecInv chunks.flatten { pending := chunks } :=
-  ⟨fun _ => stuck_nil, fun _ => by simp, fun h => by simp at h, fun h => by simp at h, fun h => by simp at h⟩
+  ⟨fun _ => stuck_nil, fun _ => by simp, fun h => by simp at h, fun h => by simp at h, fun h => by simp at h, fun h => by simp at h⟩
 
 theorem window_facts : maxPacketLen + 1 < refill ∧ refill < readBuf_1 := by decide
 
@@ -739,7 +740,7 @@ theorem decIter_step (S : Bytes) (te f : Bool) (s : Dec) (h : DecInv S s) (hr : 
   · simp only [hA, if_true]
     have hA' : r.fin = true ∧ (s.buf ++ r.data) = [] := by
       simp only [Bool.and_eq_true, List.isEmpty_iff] at hA; exact hA
-    refine ⟨⟨fun h' => by simp at h', fun h' => by simp at h', fun _ => ?_, fun h' => by simp at h', fun _ => ?_⟩, ?_, fun _ => hA'.1⟩
+    refine ⟨⟨fun h' => by simp at h', fun h' => by simp at h', fun _ _ => ?_, fun h' => by simp at h', fun _ => ?_, fun h' => by simp at h'⟩, ?_, fun _ => hA'.1⟩
     · have : s.buf ++ s.pending.flatten = [] := by rw [hX, hA'.2, hfr hA'.1]; rfl
       rw [this, drainAll_nil] at hrun
       simpa using hrun.1
@@ -754,7 +755,7 @@ theorem decIter_step (S : Bytes) (te f : Bool) (s : Dec) (h : DecInv S s) (hr : 
           ⟨(drainAll (s.buf ++ r.data)).pk, (drainAll (s.buf ++ r.data)).rest ++ r.rest.flatten, true⟩ := by
         rw [hcomb, comb, if_pos hB1]
       rw [hc] at hrun
-      refine ⟨⟨fun h' => by simp at h', fun h' => by simp at h', fun _ => hrun.1, fun _ => hrun.2, fun h' => by simp at h'⟩, ?_,
+      refine ⟨⟨fun h' => by simp at h', fun h' => by simp at h', fun _ _ => hrun.1, fun _ => hrun.2, fun h' => by simp at h', fun h' => by simp at h'⟩, ?_,
         fun h' => by simp at h'⟩
       simp [Dec.rem, Dec.done]
     · have hB1' : (drainAll (s.buf ++ r.data)).ill = false := by simpa using hB1
@@ -775,22 +776,45 @@ theorem decIter_step (S : Bytes) (te f : Bool) (s : Dec) (h : DecInv S s) (hr : 
         simp only [List.append_nil] at hrun
         by_cases hE : (drainAll (s.buf ++ r.data)).rest.isEmpty = true
         · simp only [hE, if_true]
-          refine ⟨⟨fun h' => by simp at h', fun h' => by simp at h', fun _ => hrun.1, fun h' => by simp at h', fun _ => hrun.2⟩, ?_, fun _ => by first | trivial | exact hf⟩
+          refine ⟨⟨fun h' => by simp at h', fun h' => by simp at h', fun _ _ => hrun.1, fun h' => by simp at h', fun _ => hrun.2, fun h' => by simp at h'⟩, ?_, fun _ => by first | trivial | exact hf⟩
           simp [Dec.rem, Dec.done]
         · simp only [hE]
-          refine ⟨⟨fun h' => by simp at h', fun h' => by simp at h', fun _ => hrun.1, fun h' => by simp at h', fun _ => hrun.2⟩, ?_, fun _ => by first | trivial | exact hf⟩
+          refine ⟨⟨fun h' => by simp at h', fun h' => by simp at h', fun _ _ => hrun.1, fun h' => by simp at h', fun _ => hrun.2, fun h' => by simp at h'⟩, ?_, fun _ => by first | trivial | exact hf⟩
           simp [Dec.rem, Dec.done]
       · have hf' : r.fin = false := by simpa using hf
         simp only [hf', Bool.false_eq_true, if_false]
         rw [hc] at hrun
-        refine ⟨⟨fun _ => hstk, fun _ => ⟨by rw [hrun.1]; simp [List.append_assoc], hrun.2⟩, (fun h' => absurd hr h'),
-          (fun h' => by simp [hr] at h'), (fun h' => by simp [hr] at h')⟩, ?_, (fun h' => by simp [hr] at h')⟩
+        refine ⟨⟨fun _ => hstk, fun _ => ⟨by rw [hrun.1]; simp [List.append_assoc], hrun.2⟩, (fun h' _ => absurd hr h'),
+          (fun h' => by simp [hr] at h'), (fun h' => by simp [hr] at h'), (fun h' => by simp [hr] at h')⟩, ?_, (fun h' => by simp [hr] at h')⟩
         have : meas r.rest + 1 ≤ meas s.pending := by
           cases hprog with
           | inl h' => exact absurd h' hf
           | inr h' => exact h'
         simp [Dec.rem, Dec.done, hr]
         omega
+
+theorem decInv_out_prefix (S : Bytes) (d : Dec) (h : DecInv S d) : d.out <+: (drainAll S).pk := by
+  cases hs : d.stop with
+  | running => rw [(h.run hs).1]; exact List.prefix_append _ _
+  | werr => exact h.werr hs
+  | clean => rw [h.fin (by simp [hs]) (by simp [hs])]; exact List.prefix_refl _
+  | trunc => rw [h.fin (by simp [hs]) (by simp [hs])]; exact List.prefix_refl _
+  | illegal => rw [h.fin (by simp [hs]) (by simp [hs])]; exact List.prefix_refl _
+
+/-- A refused Write on the UDP socket cuts the iteration's output and ends the goroutine. -/
+theorem cutWrite_spec (S : Bytes) (uw : Option Nat) (s d : Dec) (hd : DecInv S d) :
+    DecInv S (d.cutWrite uw s) ∧ (d.cutWrite uw s).rem ≤ d.rem ∧
+    ((d.cutWrite uw s) = d ∨ (d.cutWrite uw s).stop = .werr) := by
+  unfold Dec.cutWrite
+  cases uw with
+  | none => exact ⟨hd, Nat.le_refl _, Or.inl rfl⟩
+  | some j =>
+    dsimp only
+    split
+    · refine ⟨⟨fun h' => by simp at h', fun h' => by simp at h', fun _ h' => by simp at h', fun h' => by simp at h',
+        fun h' => by simp at h', fun _ => ?_⟩, by simp [Dec.rem, Dec.done], Or.inr rfl⟩
+      exact List.IsPrefix.trans (List.take_prefix _ _) (decInv_out_prefix S d hd)
+    · exact ⟨hd, Nat.le_refl _, Or.inl rfl⟩
 
 /-! ### UDP → tunnel goroutine -/
 
@@ -1237,19 +1261,19 @@ theorem rdNext_fin_nofuse (p : List Bytes) (room : Nat) (h : (rdNext p false roo
 /-- If the UDP side stopped before its script was over, the tunnel side had ended first (and a tunnel
 that never ends by itself can only have ended on an illegal record). -/
 def EarlyOK (c : UdpCase) (s : UdpSt) : Prop :=
-  s.enc.pending ≠ [] → s.dec.done = true ∧ (c.ttail = .hold → s.dec.stop = .illegal)
+  s.enc.pending ≠ [] → s.dec.done = true ∧ (c.ttail = .hold → s.dec.stop = .illegal ∨ s.dec.stop = .werr)
 
 structure UdpInv (c : UdpCase) (s : UdpSt) : Prop where
   dec : DecInv c.tchunks.flatten s.dec
   enc : EncInv c.uevs s.enc
   cw : s.cwT = s.enc.done
   ucl : s.udpClosed = s.dec.done
-  hold : c.ttail = .hold → s.dec.done = true → s.dec.stop ≠ .illegal → s.cwT = true
+  hold : c.ttail = .hold → s.dec.done = true → s.dec.stop ≠ .illegal → s.dec.stop ≠ .werr → s.cwT = true
   early : EncTrig s.enc → EarlyOK c s
   remb : s.dec.rem ≤ stepsFor c.tchunks
   plen : s.enc.pending.length ≤ c.uevs.length
   dh : ∀ d, s.decHeld = some d → s.dec.done = false ∧ DecInv c.tchunks.flatten d ∧ d.rem ≤ stepsFor c.tchunks ∧
-      (c.ttail = .hold → d.done = true → d.stop ≠ .illegal → s.cwT = true)
+      (c.ttail = .hold → d.done = true → d.stop ≠ .illegal → d.stop ≠ .werr → s.cwT = true)
 
 theorem udpInv_init (c : UdpCase) : UdpInv c (udpInit c) := by
   refine ⟨decInv_init _, encInv_init _, rfl, rfl, (fun _ h => by simp [udpInit, Dec.done] at h), (fun ht => ?_),
@@ -1261,28 +1285,30 @@ theorem udpInv_init (c : UdpCase) : UdpInv c (udpInit c) := by
   · obtain ⟨te, hh⟩ := ht; simp [udpInit] at hh
 
 theorem closed_early (c : UdpCase) (s : UdpSt) (h : UdpInv c s) (hd : s.enc.done = false) (hc : s.udpClosed = true) :
-    s.dec.done = true ∧ (c.ttail = .hold → s.dec.stop = .illegal) := by
+    s.dec.done = true ∧ (c.ttail = .hold → s.dec.stop = .illegal ∨ s.dec.stop = .werr) := by
   have hdd : s.dec.done = true := by rw [← h.ucl]; exact hc
   refine ⟨hdd, fun hh => ?_⟩
   by_cases hi : s.dec.stop = .illegal
-  · exact hi
-  · have := h.hold hh hdd hi
-    rw [h.cw, hd] at this
-    cases this
+  · exact Or.inl hi
+  · by_cases hw : s.dec.stop = .werr
+    · exact Or.inr hw
+    · have := h.hold hh hdd hi hw
+      rw [h.cw, hd] at this
+      cases this
 
 /-- The UDP side moves from a state in which it has not finished. -/
 theorem withEnc_inv (c : UdpCase) (s : UdpSt) (e' : Enc) (h : UdpInv c s) (hd : s.enc.done = false)
     (he : EncInv c.uevs e') (hl : e'.pending.length ≤ s.enc.pending.length)
-    (hearly : EncTrig e' → e'.pending ≠ [] → s.dec.done = true ∧ (c.ttail = .hold → s.dec.stop = .illegal)) :
+    (hearly : EncTrig e' → e'.pending ≠ [] → s.dec.done = true ∧ (c.ttail = .hold → s.dec.stop = .illegal ∨ s.dec.stop = .werr)) :
     UdpInv c (s.withEnc e') := by
   have hcw : s.cwT = false := by rw [h.cw]; exact hd
   unfold UdpSt.withEnc
-  refine ⟨h.dec, he, (by simp [hcw]), h.ucl, (fun hh hdn hni => ?_), hearly, h.remb, (by have := h.plen; exact Nat.le_trans hl this),
+  refine ⟨h.dec, he, (by simp [hcw]), h.ucl, (fun hh hdn hni hnw => ?_), hearly, h.remb, (by have := h.plen; exact Nat.le_trans hl this),
     (fun d hdh => ?_)⟩
-  · have := h.hold hh hdn hni
+  · have := h.hold hh hdn hni hnw
     rw [hcw] at this; cases this
   · obtain ⟨a, b, cc, dd⟩ := h.dh d hdh
-    exact ⟨a, b, cc, fun hh hdn hni => by have := dd hh hdn hni; rw [hcw] at this; cases this⟩
+    exact ⟨a, b, cc, fun hh hdn hni hnw => by have := dd hh hdn hni hnw; rw [hcw] at this; cases this⟩
 
 theorem withEnc_self (c : UdpCase) (s : UdpSt) (h : UdpInv c s) : s.withEnc s.enc = s := by
   have := h.cw
@@ -1338,7 +1364,7 @@ theorem udpStepU_inv (c : UdpCase) (s : UdpSt) (hold : Bool) (h : UdpInv c s) : 
 
 theorem commit_inv (c : UdpCase) (s : UdpSt) (d : Dec) (h : UdpInv c s) (hnd : s.dec.done = false)
     (hdi : DecInv c.tchunks.flatten d) (hrem : d.rem ≤ stepsFor c.tchunks)
-    (hh : c.ttail = .hold → d.done = true → d.stop ≠ .illegal → s.cwT = true) :
+    (hh : c.ttail = .hold → d.done = true → d.stop ≠ .illegal → d.stop ≠ .werr → s.cwT = true) :
     UdpInv c (s.commitDec .repaired d) := by
   have hucl : s.udpClosed = false := by rw [h.ucl]; exact hnd
   unfold UdpSt.commitDec
@@ -1360,19 +1386,27 @@ theorem udpStepT_inv (c : UdpCase) (s : UdpSt) (hold : Bool) (h : UdpInv c s) : 
     by_cases hb : (s.dec.pending.isEmpty && c.ttail == .hold && !s.cwT && decide (s.dec.buf.length < refill)) = true
     · rw [if_pos hb]; exact h
     · rw [if_neg hb]
-      have hstep := decIter_step c.tchunks.flatten (c.ttail == .err) (c.tfused && c.ttail != .hold) s.dec h.dec hr
+      have hstep0 := decIter_step c.tchunks.flatten (c.ttail == .err) (c.tfused && c.ttail != .hold) s.dec h.dec hr
       dsimp only
-      generalize decIter .repaired (c.ttail == .err) (c.tfused && c.ttail != .hold) s.dec = d at hstep ⊢
-      have hrem : d.rem ≤ stepsFor c.tchunks := by have := hstep.2.1; have := h.remb; omega
-      have hhold : c.ttail = .hold → d.done = true → d.stop ≠ .illegal → s.cwT = true := by
-        intro hh hdn hni
+      generalize decIter .repaired (c.ttail == .err) (c.tfused && c.ttail != .hold) s.dec = d0 at hstep0 ⊢
+      have hcut := cutWrite_spec c.tchunks.flatten c.uwfail s.dec d0 hstep0.1
+      generalize d0.cutWrite c.uwfail s.dec = d at hcut ⊢
+      have hrem : d.rem ≤ stepsFor c.tchunks := by have := hstep0.2.1; have := hcut.2.1; have := h.remb; omega
+      have hhold : c.ttail = .hold → d.done = true → d.stop ≠ .illegal → d.stop ≠ .werr → s.cwT = true := by
+        intro hh hdn hni hnw
+        have hd0 : d = d0 := by
+          cases hcut.2.2 with
+          | inl he => exact he
+          | inr he => exact absurd he hnw
+        subst hd0
         have hstop : d.stop = .clean ∨ d.stop = .trunc := by
           cases hs : d.stop with
           | running => simp [Dec.done, hs] at hdn
           | illegal => exact absurd hs hni
+          | werr => exact absurd hs hnw
           | clean => exact Or.inl rfl
           | trunc => exact Or.inr rfl
-        have hfin := hstep.2.2 hstop
+        have hfin := hstep0.2.2 hstop
         have hf0 : (c.tfused && c.ttail != .hold) = false := by simp [hh]
         rw [hf0] at hfin
         have hp := rdNext_fin_nofuse _ _ hfin
@@ -1384,8 +1418,8 @@ theorem udpStepT_inv (c : UdpCase) (s : UdpSt) (hold : Bool) (h : UdpInv c s) : 
       · refine ⟨h.dec, h.enc, h.cw, h.ucl, h.hold, h.early, h.remb, h.plen, (fun d' hd'' => ?_)⟩
         have : d = d' := Option.some.inj hd''
         subst this
-        exact ⟨hd'.1, hstep.1, hrem, hhold⟩
-      · exact commit_inv c s d h hd'.1 hstep.1 hrem hhold
+        exact ⟨hd'.1, hcut.1, hrem, hhold⟩
+      · exact commit_inv c s d h hd'.1 hcut.1 hrem hhold
 
 theorem udpStep_inv (c : UdpCase) (s : UdpSt) (t : UTok) (h : UdpInv c s) : UdpInv c (udpStep .repaired c s t) := by
   unfold udpStep
@@ -1591,7 +1625,11 @@ theorem udpStep_T_rem (c : UdpCase) (s : UdpSt) (hg : Good c s) (hpk : UIdle c s
       | inr h' => exact hwf ⟨h'.2, htt⟩
     · rw [if_neg hb]
       simp only [Bool.false_and, Bool.false_eq_true, if_false, UdpSt.commitDec]
-      exact (decIter_step c.tchunks.flatten _ _ s.dec h.dec hr).2.1
+      have h0 := decIter_step c.tchunks.flatten (c.ttail == .err) (c.tfused && c.ttail != .hold) s.dec h.dec hr
+      have h1 := cutWrite_spec c.tchunks.flatten c.uwfail s.dec _ h0.1
+      have := h0.2.1
+      have := h1.2.1
+      omega
 
 theorem tphase (c : UdpCase) (hwf : ¬ (c.utail = .hold ∧ c.ttail = .hold)) (k : Nat) :
     ∀ s : UdpSt, Good c s → UIdle c s → s.dec.rem ≤ k →
@@ -1656,13 +1694,17 @@ theorem tcpRunFast_eq (A B : EP) (σ : List TTok) : tcpRunFast A B σ = tcpRun A
 
 /-! ### from the invariants to the property predicate -/
 
-theorem holdsUdp_of (sc : UdpSpecCase) (chunks : List Bytes) (hflat : chunks.flatten = sc.stream) (s : UdpSt)
-    (inv : UdpInv ⟨sc.uevs, sc.utail, chunks, sc.ttail, sc.tfused⟩ s) (ret : s.returned = true) :
+theorem holdsUdp_of (sc : UdpSpecCase) (chunks : List Bytes) (uw : Option Nat) (hflat : chunks.flatten = sc.stream) (s : UdpSt)
+    (inv : UdpInv ⟨sc.uevs, sc.utail, chunks, sc.ttail, sc.tfused, uw⟩ s) (ret : s.returned = true) :
     holdsUdp sc (udpObs s) = true := by
   have hd : s.enc.done = true ∧ s.dec.done = true := by simpa [UdpSt.returned] using ret
   have hstop : s.dec.stop ≠ .running := (Dec.done_iff _).mp hd.2
-  have hout : s.dec.out = (drainAll sc.stream).pk := by
-    have := inv.dec.fin hstop
+  have hpre : s.dec.out <+: (drainAll sc.stream).pk := by
+    have := decInv_out_prefix _ _ inv.dec
+    simpa only [hflat] using this
+  have hout : s.dec.stop ≠ .werr → s.dec.out = (drainAll sc.stream).pk := by
+    intro hnw
+    have := inv.dec.fin hstop hnw
     simp only [hflat] at this
     exact this.symm
   obtain ⟨taken, h1, h2, h3⟩ := inv.enc.split
@@ -1673,25 +1715,40 @@ theorem holdsUdp_of (sc : UdpSpecCase) (chunks : List Bytes) (hflat : chunks.fla
     rw [h1, h2]; exact List.take_left' rfl
   -- tunnel → UDP
   have c2 : (!(sc.tds.all wfDgram) ||
-      (if sc.junk.isEmpty then s.dec.out == completeBefore sc.tds sc.cut
+      (if (s.dec.stop == .werr) then (!sc.junk.isEmpty || s.dec.out.isPrefixOf (completeBefore sc.tds sc.cut))
+       else if sc.junk.isEmpty then s.dec.out == completeBefore sc.tds sc.cut
        else (!(decide ((encodeAll sc.tds).length ≤ sc.cut)) || sc.tds.isPrefixOf s.dec.out))) = true := by
     cases hw : sc.tds.all wfDgram with
     | false => rfl
     | true =>
       simp only [Bool.not_true, Bool.false_or]
-      cases hj : sc.junk.isEmpty with
+      cases hwe : (s.dec.stop == DStop.werr) with
       | true =>
-        have hj' : sc.junk = [] := List.isEmpty_iff.mp hj
         simp only [if_true]
-        rw [hout, UdpSpecCase.stream, hj', List.append_nil, (drainAll_cut sc.tds hw sc.cut).1]
-        simp
+        cases hj : sc.junk.isEmpty with
+        | false => rfl
+        | true =>
+          have hj' : sc.junk = [] := List.isEmpty_iff.mp hj
+          simp only [Bool.not_true, Bool.false_or]
+          rw [UdpSpecCase.stream, hj', List.append_nil, (drainAll_cut sc.tds hw sc.cut).1] at hpre
+          exact List.isPrefixOf_iff_prefix.mpr hpre
       | false =>
+        have hnw : s.dec.stop ≠ .werr := by simpa using hwe
+        have hout' := hout hnw
         simp only [Bool.false_eq_true, if_false]
-        by_cases hc : (encodeAll sc.tds).length ≤ sc.cut
-        · simp only [hc, decide_true, Bool.not_true, Bool.false_or]
-          rw [hout, UdpSpecCase.stream, List.take_of_length_le hc, drainAll_encodeAll_append sc.tds hw]
-          exact List.isPrefixOf_iff_prefix.mpr (List.prefix_append _ _)
-        · simp [hc]
+        cases hj : sc.junk.isEmpty with
+        | true =>
+          have hj' : sc.junk = [] := List.isEmpty_iff.mp hj
+          simp only [if_true]
+          rw [hout', UdpSpecCase.stream, hj', List.append_nil, (drainAll_cut sc.tds hw sc.cut).1]
+          simp
+        | false =>
+          simp only [Bool.false_eq_true, if_false]
+          by_cases hc : (encodeAll sc.tds).length ≤ sc.cut
+          · simp only [hc, decide_true, Bool.not_true, Bool.false_or]
+            rw [hout', UdpSpecCase.stream, List.take_of_length_le hc, drainAll_encodeAll_append sc.tds hw]
+            exact List.isPrefixOf_iff_prefix.mpr (List.prefix_append _ _)
+          · simp [hc]
   -- UDP → tunnel
   have c3 : (!(((dgramsOf sc.uevs).take s.enc.nread).all wfDgram) ||
       s.enc.flushes.flatten == encodeAll ((dgramsOf sc.uevs).take s.enc.nread)) = true := by
@@ -1699,23 +1756,26 @@ theorem holdsUdp_of (sc : UdpSpecCase) (chunks : List Bytes) (hflat : chunks.fla
     cases hw : taken.all wfDgram with
     | false => rfl
     | true => rw [h3, normDs_wf taken hw]; simp
-  have c4 : (!(sc.ttail == .hold && sc.junk.isEmpty && sc.tds.all wfDgram) ||
+  have c4 : (!(sc.ttail == .hold && sc.junk.isEmpty && sc.tds.all wfDgram && !(s.dec.stop == .werr)) ||
       s.enc.nread == (dgramsOf sc.uevs).length) = true := by
-    cases hh : (sc.ttail == .hold && sc.junk.isEmpty && sc.tds.all wfDgram) with
+    cases hh : (sc.ttail == .hold && sc.junk.isEmpty && sc.tds.all wfDgram && !(s.dec.stop == .werr)) with
     | false => rfl
     | true =>
-      simp only [Bool.and_eq_true, beq_iff_eq] at hh
-      have hj' : sc.junk = [] := List.isEmpty_iff.mp hh.1.2
+      simp only [Bool.and_eq_true, beq_iff_eq, Bool.not_eq_true', beq_eq_false_iff_ne] at hh
+      have hj' : sc.junk = [] := List.isEmpty_iff.mp hh.1.1.2
       have hp : s.enc.pending = [] := by
         cases hpe : s.enc.pending with
         | nil => rfl
         | cons ev rest =>
           exfalso
-          have hill := (inv.early (Or.inl hd.1) (by rw [hpe]; simp)).2 hh.1.1
-          have := inv.dec.ill hill
-          dsimp only at this
-          rw [hflat, UdpSpecCase.stream, hj', List.append_nil, (drainAll_cut sc.tds hh.2 sc.cut).2] at this
-          cases this
+          have hab := (inv.early (Or.inl hd.1) (by rw [hpe]; simp)).2 hh.1.1.1
+          cases hab with
+          | inl hill =>
+            have := inv.dec.ill hill
+            dsimp only at this
+            rw [hflat, UdpSpecCase.stream, hj', List.append_nil, (drainAll_cut sc.tds hh.1.2 sc.cut).2] at this
+            cases this
+          | inr hwe => exact hh.2 hwe
       rw [hp] at h1
       simp only [dgramsOf, List.append_nil] at h1
       rw [h1, h2]
@@ -1724,13 +1784,13 @@ theorem holdsUdp_of (sc : UdpSpecCase) (chunks : List Bytes) (hflat : chunks.fla
   rfl
 
 /-- The same when the local side is the asynchronous virtual connection and its queue has been sent. -/
-theorem holdsUdpV_of (sc : UdpSpecCase) (chunks : List Bytes) (hflat : chunks.flatten = sc.stream) (s : UdpSt)
-    (inv : UdpInv ⟨sc.uevs, sc.utail, chunks, sc.ttail, sc.tfused⟩ s) (ret : s.returned = true)
+theorem holdsUdpV_of (sc : UdpSpecCase) (chunks : List Bytes) (uw : Option Nat) (hflat : chunks.flatten = sc.stream) (s : UdpSt)
+    (inv : UdpInv ⟨sc.uevs, sc.utail, chunks, sc.ttail, sc.tfused, uw⟩ s) (ret : s.returned = true)
     (hs : s.nsent = s.dec.out.length) :
     holdsUdp sc (udpObsV s) = true := by
   have : udpObsV s = udpObs s := by
     simp only [udpObsV, udpObs, hs, List.take_length]
-  rw [this]; exact holdsUdp_of sc chunks hflat s inv ret
+  rw [this]; exact holdsUdp_of sc chunks uw hflat s inv ret
 
 /-! ### SOCKS5 UDP tunnel codec -/
 
